@@ -31,8 +31,23 @@ sys.path.insert(0, os.path.dirname(os.path.abspath(__file__)))
 import c18gen  # noqa: E402
 import liftfull_engine  # noqa: E402
 
-MAX_BYTES = 8 * 1024
+MAX_BYTES = 8 * 1024          # up to here a source goes into the sharded batch runs
 MAX_DEPTH = 24
+# third audit: beyond the batch limits, up to 64 kB (`modest size` of the property) and a nesting estimate of 160 (the
+# command-line tool is known to exhaust its 8 MB stack from an estimate of 64 on, C01-stack-depth; the in-process
+# harness runs on a 4 GB stack, so the panics of the code itself stay visible well into that class), a source is fed ON ITS OWN (one
+# harness process with a 4 GB worker stack and one model process with an unlimited stack per source, BIG_TIMEOUT_S
+# each): what does not finish is counted per reason, never dropped silently
+BIG_BYTES = 64 * 1024
+BIG_DEPTH = 160
+BIG_TIMEOUT_S = 60
+BIG_MAX_QUICK = 120
+# (curve, value passes, degree passes) of the real side; `-` = no budget, the real 10 s time box only.  The model
+# takes the prime of that curve (read from the current utils/constants.rs) and the same budgets (4 for `-`: the
+# outcome class does not depend on the budget - C01_definition_chain_never_panics holds at every budget - and
+# the extracted budget is a unary number)
+CONFIGS = [("BN254", "-", "-"), ("BLS12_381", "1", "1"), ("GOLDILOCKS", "4", "4"), ("BN254", "0", "0"),
+           ("GOLDILOCKS", "2", "1"), ("BLS12_381", "-", "3")]
 HYP_NAMES = ["is_block", "stmt_sugar_free", "ast_init_flat", "names_distinct", "stmt_lits_ok", "ssa_output_ok",
              "definition_wf", "ast_init_ok"]
 
@@ -63,12 +78,65 @@ def model_class(text):
     return w[0] if w[0] != "other" else text
 
 
+def primes_of_source(common):
+    """{CURVE: hex} from the decimal literals of the CURRENT program_structure/src/utils/constants.rs."""
+    import re
+    text = open(os.path.join(common.REPO, "program_structure/src/utils/constants.rs"), encoding="utf-8").read()
+    out = {}
+    for variant, curve in (("Bn254", "BN254"), ("Bls12_381", "BLS12_381"), ("Goldilocks", "GOLDILOCKS")):
+        m = re.search(r"\b%s\s*=>\s*\{?\s*\"([0-9]+)\"" % variant, text)
+        if m:
+            out[curve] = "%x" % int(m.group(1))
+    return out
+
+
+def margs(primes, cfg):
+    curve, kv, kd = cfg
+    return [primes[curve], "4" if kv == "-" else kv, "4" if kd == "-" else kd]
+
+
+def hargs(cfg):
+    curve, kv, kd = cfg
+    return ["chain", curve] + ([] if (kv, kd) == ("-", "-") else [kv if kv != "-" else "x", kd if kd != "-" else "x"])
+
+
+def run_many(common, binary, args, lines, unlimited_stack=False):
+    """One process for the given lines -> (output lines or None, reason)."""
+    cmd = (["prlimit", "--stack=unlimited", "--"] if unlimited_stack else []) + [binary] + args
+    rc, out, err = common.sh(cmd, inp="\n".join(lines) + "\n", timeout=BIG_TIMEOUT_S)
+    if rc != 0:
+        return None, ("no answer within %d s" % BIG_TIMEOUT_S) if rc == 124 else "exit status %s" % rc
+    res = [l for l in out.split("\n") if l.strip()]
+    if len(res) != len(lines):
+        return None, "answered %d lines for %d" % (len(res), len(lines))
+    return res, ""
+
+
+def run_one(common, binary, args, line, unlimited_stack=False):
+    """One process for one line -> (output line or None, reason)."""
+    cmd = (["prlimit", "--stack=unlimited", "--"] if unlimited_stack else []) + [binary] + args
+    try:
+        rc, out, err = common.sh(cmd, inp=line + "\n", timeout=BIG_TIMEOUT_S)
+    except Exception as e:            # time-out of common.sh
+        return None, "no answer within %d s" % BIG_TIMEOUT_S if "ime" in repr(e) else "failed: %r" % (e,)
+    if rc != 0:
+        return None, ("no answer within %d s" % BIG_TIMEOUT_S) if rc in (124, -9, None) else "exit status %s" % rc
+    lines = [l for l in out.split("\n") if l.strip()]
+    return (lines[0] if lines else None), ("" if lines else "no output")
+
+
 def run(common, rng, quick, sources, nesting_depth):
     """sources: [(label, text)] candidates of C01's own engine.  -> dict"""
+    import concurrent.futures
     hb = common.build_harness("liftfull")
     mb = common.build_model("chain")
+    primes = primes_of_source(common)
+    if len(primes) != 3:
+        raise common.BuildError("chain stage: the three primes of utils/constants.rs could not be read", repr(primes))
     skipped = collections.Counter()
     progs = [("fixed/" + k, s) for k, s in FIXED]
+    big = []
+    own = 0
     for label, s in sources:
         if isinstance(s, bytes):
             try:
@@ -79,37 +147,142 @@ def run(common, rng, quick, sources, nesting_depth):
         if not s.strip() or not c18gen.escape(s).strip():
             skipped["blank (the line protocol of the harness skips blank lines)"] += 1
             continue
-        if len(s) > MAX_BYTES:
-            skipped["larger than %d bytes" % MAX_BYTES] += 1
-            continue
         if "\x00" in s:
             skipped["NUL byte (line protocol)"] += 1
             continue
-        if nesting_depth(s.encode("utf-8")) > MAX_DEPTH:
-            skipped["syntactic nesting estimate > %d" % MAX_DEPTH] += 1
+        depth = nesting_depth(s.encode("utf-8"))
+        if len(s) > BIG_BYTES:
+            skipped["larger than %d bytes (beyond `modest size`)" % BIG_BYTES] += 1
+            continue
+        if depth > BIG_DEPTH:
+            skipped["syntactic nesting estimate > %d (deep inside the class of the known finding C01-stack-depth)" % BIG_DEPTH] += 1
+            continue
+        if len(s) > MAX_BYTES or depth > MAX_DEPTH:
+            big.append((label, s, depth))
             continue
         progs.append((label, s))
+        own += 1
+    n_own = len(progs)
     progs += liftfull_engine.gen_programs(rng, quick)
-    lines = [c18gen.escape(s) for _, s in progs]
-    impl = common.run_lines(hb, ["chain"], lines, shards=common.NPROC)
-    if len(impl) != len(lines):
-        raise common.BuildError("chain stage: harness output length mismatch", "%d %d" % (len(impl), len(lines)))
+
+    # ---- the hypothesis wf_template of the PARSER's output (C18_desugar_never_panics), third audit: evaluated on
+    # C01's own sources (until then only C18's engine evaluated it, on C18's inputs).  The definitions as parsed are
+    # dumped by harness/src/bin/desugar.rs (field PRE); the decision procedure is C18's (props/C18.py wf_violations).
+    wf_eval, wf_broken, wf_unparsed = 0, [], 0
+    try:
+        from props import C18 as c18
+    except ImportError:
+        import C18 as c18
+    db = common.build_harness("desugar")
+    wf_lines = common.run_lines(db, [], [c18gen.escape(s) for _, s in progs[:n_own]], shards=common.NPROC)
+    if len(wf_lines) != n_own:
+        raise common.BuildError("chain stage: desugar harness output length mismatch", "%d %d" % (len(wf_lines), n_own))
+    for (label, src), line in zip(progs[:n_own], wf_lines):
+        pre = c18.fields(line).get("PRE")
+        if not pre or not pre.startswith("(prog"):
+            wf_unparsed += 1
+            continue
+        ndefs = len(c18.split_defs(pre))
+        wf_eval += ndefs
+        w = c18.wf_violations(pre)
+        if w:
+            wf_broken.append({"src": src, "label": label, "def": pre[:2000], "unmet": ["wf_template: " + "; ".join(w)],
+                              "impl": "-", "model": "-"})
+
+    # ---- batch runs: the programs are dealt over the configurations (the fixed sources go to every one)
+    cfgs = CONFIGS[:3] if quick else CONFIGS
+    rot = rng.randrange(len(cfgs))
+    groups = [[] for _ in cfgs]
+    for i, pr in enumerate(progs):
+        if pr[0].startswith("fixed/"):
+            for g in groups:
+                g.append(pr)
+        else:
+            groups[(i + rot) % len(cfgs)].append(pr)
     statuses = collections.Counter()
-    defs = []
-    for (label, src), line in zip(progs, impl):
+    defs = []           # (label, src, def, res, cfg index)
+    per_cfg = {}
+    for ci, (cfg, grp) in enumerate(zip(cfgs, groups)):
+        lines = [c18gen.escape(s) for _, s in grp]
+        impl = common.run_lines(hb, hargs(cfg), lines, shards=common.NPROC)
+        if len(impl) != len(lines):
+            raise common.BuildError("chain stage: harness output length mismatch", "%d %d" % (len(impl), len(lines)))
+        nd = 0
+        for (label, src), line in zip(grp, impl):
+            f = liftfull_engine.split_fields(line)
+            if isinstance(f, str):
+                statuses[" ".join(f.split(" ")[:2])] += 1
+                continue
+            for d, r in f:
+                defs.append((label, src, d, r, ci))
+                nd += 1
+        per_cfg["%s value-passes=%s degree-passes=%s" % cfg] = {"programs": len(grp), "definitions": nd}
+
+    # ---- big sources, one process each
+    big.sort(key=lambda b: (b[2] <= MAX_DEPTH, len(b[1])))
+    if quick and len(big) > BIG_MAX_QUICK:
+        rng.shuffle(big)
+        skipped["big sources beyond the %d fed per quick run" % BIG_MAX_QUICK] += len(big) - BIG_MAX_QUICK
+        big = big[:BIG_MAX_QUICK]
+    big_stats = collections.Counter()
+
+    def big_one(item):
+        i, (label, src, depth) = item
+        cfg = cfgs[i % len(cfgs)]
+        line, why = run_one(common, hb, hargs(cfg), c18gen.escape(src))
+        return i, cfg, line, why
+    with concurrent.futures.ThreadPoolExecutor(max_workers=max(2, common.NPROC // 2)) as ex:
+        big_res = list(ex.map(big_one, list(enumerate(big))))
+    big_defs = []       # per fed source: (label, src, cfg index, [(def, res)])
+    for i, cfg, line, why in big_res:
+        label, src, depth = big[i]
+        if line is None:
+            big_stats["real side: " + why] += 1
+            continue
         f = liftfull_engine.split_fields(line)
         if isinstance(f, str):
             statuses[" ".join(f.split(" ")[:2])] += 1
+            big_stats["does not parse / no definition"] += 1
             continue
-        for d, r in f:
-            defs.append((label, src, d, r))
+        big_stats["fed"] += 1
+        big_defs.append((label + "/big", src, cfgs.index(cfg), list(f)))
+
     uniq = {}
-    for _, _, d, _ in defs:
-        uniq.setdefault(d, len(uniq))
+    for _, _, d, _, ci in defs:
+        uniq.setdefault((d, ci), len(uniq))
     ulist = sorted(uniq, key=uniq.get)
-    umodel = common.run_lines(mb, [], ulist, shards=common.NPROC)
-    if len(umodel) != len(ulist):
-        raise common.BuildError("chain stage: model output length mismatch", "%d %d" % (len(umodel), len(ulist)))
+    umodel = [None] * len(ulist)
+    for ci, cfg in enumerate(cfgs):
+        idx = [i for i, (d, c) in enumerate(ulist) if c == ci]
+        if not idx:
+            continue
+        outm = common.run_lines(mb, margs(primes, cfg), [ulist[i][0] for i in idx], shards=common.NPROC)
+        if len(outm) != len(idx):
+            raise common.BuildError("chain stage: model output length mismatch", "%d %d" % (len(outm), len(idx)))
+        for i, o in zip(idx, outm):
+            umodel[i] = o
+    # big sources: the model in one process per source too, with an unlimited stack (a definition of 2000
+    # statements can take the extracted dominator / SSA mirrors longer than the time allotted: counted)
+
+    def big_model(rec):
+        label, src, ci, f = rec
+        ds = sorted(set(d for d, _ in f))
+        lines, why = run_many(common, mb, margs(primes, cfgs[ci]), ds, unlimited_stack=True)
+        return rec, (dict(zip(ds, lines)) if lines is not None else None), why
+    with concurrent.futures.ThreadPoolExecutor(max_workers=max(2, common.NPROC // 2)) as ex:
+        for (label, src, ci, f), answers, why in ex.map(big_model, big_defs):
+            if answers is None:
+                big_stats["model side: " + why] += 1
+                continue
+            big_stats["sources compared"] += 1
+            for d, r in f:
+                big_stats["definitions compared"] += 1
+                defs.append((label, src, d, r, ci))
+                if (d, ci) not in uniq:
+                    uniq[(d, ci)] = len(umodel)
+                    ulist.append((d, ci))
+                    umodel.append(answers[d])
+
     classes = collections.Counter()
     by_source = collections.Counter()
     hyp_eval = collections.Counter()
@@ -117,8 +290,8 @@ def run(common, rng, quick, sources, nesting_depth):
     disagreements, hyp_broken, thm_broken, impl_panics, order_dependent = [], [], [], [], []
     fixed_seen = {}
     counted = set()
-    for label, src, d, r in defs:
-        m = umodel[uniq[d]]
+    for label, src, d, r, ci in defs:
+        m = umodel[uniq[(d, ci)]]
         first = d not in counted
         counted.add(d)
         if m.startswith("(driver-error"):
@@ -128,18 +301,22 @@ def run(common, rng, quick, sources, nesting_depth):
         ch, cr, bits = fl.get("CH", "?"), fl.get("CR", "?"), fl.get("H", "")
         ic, mc = impl_class(r), model_class(ch)
         if label.startswith("fixed/"):
+            if fixed_seen.get(label[6:], ic) != ic:
+                disagreements.append({"src": src, "label": label, "def": d[:2000], "impl": r,
+                                      "model": "outcome class differs between configurations: " + fixed_seen[label[6:]]})
             fixed_seen[label[6:]] = ic
         if first:
             classes[ic] += 1
-            by_source[label.split("/")[0].split(":")[0]] += 1
+            by_source[label.split("/")[0].split(":")[0] + ("/big" if label.endswith("/big") else "")] += 1
             for name, b in zip(HYP_NAMES, bits):
                 hyp_eval[name] += 1
                 if b != "1":
                     hyp_fail[name] += 1
+        cfgname = "%s value-passes=%s degree-passes=%s" % cfgs[ci]
         if ic.startswith("panic"):
-            impl_panics.append({"src": src, "label": label, "impl": r, "model": ch})
+            impl_panics.append({"src": src, "label": label, "impl": r, "model": ch, "config": cfgname})
         if ic != mc:
-            disagreements.append({"src": src, "label": label, "def": d[:2000], "impl": r, "model": ch})
+            disagreements.append({"src": src, "label": label, "def": d[:2000], "impl": r, "model": ch, "config": cfgname})
         if ch != cr:
             order_dependent.append({"src": src, "label": label, "identity_order": ch, "reversed_order": cr})
         if len(bits) != len(HYP_NAMES):
@@ -154,37 +331,60 @@ def run(common, rng, quick, sources, nesting_depth):
             hyp_broken.append({"src": src, "label": label, "def": d[:2000], "unmet": unmet, "impl": r, "model": ch})
         elif mc not in ("ok", "err-lift", "err-ssa"):
             thm_broken.append({"src": src, "label": label, "def": d[:2000], "model": ch, "reversed": cr})
+    hyp_eval["wf_template (parser output, C18's decision procedure)"] = wf_eval
+    if wf_broken:
+        hyp_fail["wf_template"] = len(wf_broken)
+    hyp_broken += wf_broken
     expected_fixed = {"ok_loop": "ok", "ok_template": "ok", "err_param_collision": "err-lift", "err_ssa_undefined": "err-ssa"}
     degenerate = ["fixed source %s: expected class %s, saw %s" % (k, v, fixed_seen.get(k))
                   for k, v in expected_fixed.items() if fixed_seen.get(k) != v]
+    if big and big_stats["fed"] * 2 < len(big) - big_stats["does not parse / no definition"]:
+        degenerate.append("fewer than half of the big / deep sources could be fed: %r" % dict(big_stats))
+    if wf_eval == 0:
+        degenerate.append("wf_template was evaluated on no definition")
     return {"programs": len(progs), "sources_not_fed": dict(skipped), "statuses": dict(statuses),
-            "definitions": len(defs), "distinct_definitions": len(ulist), "impl_outcome_classes": dict(classes),
+            "definitions": len(defs), "distinct_definitions": len(counted), "impl_outcome_classes": dict(classes),
             "distinct_definitions_by_source": dict(by_source),
             "hypothesis_evaluations": dict(hyp_eval), "hypothesis_failures": dict(hyp_fail),
+            "configurations": per_cfg, "primes_read_from_source": primes,
+            "big_sources": {"candidates_fed_one_process_each": len(big), "limits": "%d < bytes <= %d or %d < nesting <= %d"
+                            % (MAX_BYTES, BIG_BYTES, MAX_DEPTH, BIG_DEPTH), **{k: v for k, v in big_stats.items()},
+                            "deepest_fed": max([b[2] for b in big] + [0]), "largest_fed": max([len(b[1]) for b in big] + [0])},
+            "wf_template": {"definitions_evaluated": wf_eval, "sources_without_parsed_definitions": wf_unparsed,
+                            "failures": len(wf_broken)},
             "disagreements": disagreements, "hyp_broken": hyp_broken, "thm_broken": thm_broken,
             "impl_panics": impl_panics, "order_dependent": order_dependent, "degenerate": degenerate,
             "fixed_classes": fixed_seen}
 
 
 def replay_source(common, src):
-    """Re-runs one source through the real per-definition pipeline and the extracted chain; prints the
-    comparison; returns the number of definitions that differ, panic, or miss a hypothesis."""
+    """Re-runs one source through the real per-definition pipeline and the extracted chain under every
+    configuration; prints the comparison; returns the number of definitions that differ, panic, or miss a hypothesis."""
     hb = common.build_harness("liftfull")
     mb = common.build_model("chain")
-    line, = common.run_lines(hb, ["chain"], [c18gen.escape(src)])
-    f = liftfull_engine.split_fields(line)
-    if isinstance(f, str):
-        print("harness:", f)
-        return 0
+    primes = primes_of_source(common)
     bad = 0
-    for d, r in f:
-        m, = common.run_lines(mb, [], [d])
-        fl = dict(x.split(" ", 1) for x in m.split("\t") if " " in x)
-        ic, mc = impl_class(r), model_class(fl.get("CH", "?"))
-        unmet = [n for n, b in zip(HYP_NAMES, fl.get("H", "")) if b != "1"]
-        verdict = "equal" if ic == mc else "DIFFERENT"
-        print("%s  real: %s  mirror: %s (reversed orders: %s)  hypotheses unmet: %s  -> %s"
-              % (d[:60], r, fl.get("CH"), fl.get("CR"), unmet or "none", verdict))
-        if ic != mc or ic.startswith("panic") or unmet or fl.get("CH") != fl.get("CR"):
+    for cfg in CONFIGS:
+        line, why = run_one(common, hb, hargs(cfg), c18gen.escape(src))
+        if line is None:
+            print("harness (%s):" % (cfg,), why)
             bad += 1
+            continue
+        f = liftfull_engine.split_fields(line)
+        if isinstance(f, str):
+            print("harness:", f)
+            return bad
+        for d, r in f:
+            m, why = run_one(common, mb, margs(primes, cfg), d, unlimited_stack=True)
+            if m is None:
+                print("model (%s):" % (cfg,), why)
+                continue
+            fl = dict(x.split(" ", 1) for x in m.split("\t") if " " in x)
+            ic, mc = impl_class(r), model_class(fl.get("CH", "?"))
+            unmet = [n for n, b in zip(HYP_NAMES, fl.get("H", "")) if b != "1"]
+            verdict = "equal" if ic == mc else "DIFFERENT"
+            print("%s %s  real: %s  mirror: %s (reversed orders: %s)  hypotheses unmet: %s  -> %s"
+                  % (cfg, d[:60], r, fl.get("CH"), fl.get("CR"), unmet or "none", verdict))
+            if ic != mc or ic.startswith("panic") or unmet or fl.get("CH") != fl.get("CR"):
+                bad += 1
     return bad
